@@ -166,7 +166,7 @@ theorem mean1_spec (n : α) : ∀ (self : V1 α) (others : List (V1 α)),
       obtain ⟨o', h1, h2⟩ := ho
       rw [← h2]; simp [h o' h1]
     have hrec := ih (others.map List.tail) htl
-    unfold mean1 at hrec ⊢
+    unfold mean1 nzip1 at hrec ⊢
     simp only [meanG, heads_spec others hne, hrec]
     congr 1
     simp only [meanSpec1, List.length_cons, List.range_succ_eq_map, List.map_cons, List.map_map,
